@@ -101,7 +101,7 @@ def new_line_table(ctx, rid, only_gate=False):
     PURE = ("should_report_error", "is_skipped_line", "max_width", "contains_line", "is_comment", "is_string", "file_lines")
     try:
         paths = explore(f, pure=lambda c: any(c.name.endswith(x) for x in PURE),
-                        is_effect=lambda c: c.name.endswith("::push_err"))
+                        is_effect=lambda c: c.name.endswith("::push_err"), program=p, inline="auto")
     except TooManyPaths as e:
         r.undecidable(rid, str(e))
         return
@@ -343,7 +343,8 @@ def per_line_reset(ctx, rid):
         r.undecidable(rid, "FormatLines::new_line not found")
         return
     paths = explore(f, is_effect=lambda c: c.name.endswith("String::clear"),
-                    pure=lambda c: any(c.name.endswith(x) for x in ("should_report_error", "is_skipped_line", "max_width", "contains_line", "file_lines")))
+                    pure=lambda c: any(c.name.endswith(x) for x in ("should_report_error", "is_skipped_line", "max_width", "contains_line", "file_lines")),
+                    program=p, inline="auto")
     r.paths(rid, len(paths))
     n = 0
     for path in paths:
